@@ -70,6 +70,12 @@ def canon(n):
     if k == "CXXTypeidExpr": return "typeid(%s)" % (n.get("typeArg", {}).get("qualType") or (canon(inner[0]) if inner else "?"))
     if k == "UnresolvedLookupExpr": return n.get("name") or "?lookup"
     if k == "CXXDefaultArgExpr": return "default"
+    if k == "CharacterLiteral": return "chr(%s)" % n.get("value")
+    if k == "CXXForRangeStmt":
+        # (init, the hidden __range / __begin / __end declarations, condition, increment, the loop variable, the body): variable, range, body
+        rng = next((canon(v["inner"][0]) for c in inner if c.get("kind") == "DeclStmt" for v in c.get("inner", []) if v.get("kind") == "VarDecl" and str(v.get("name", "")).startswith("__range") and v.get("inner")), "?")
+        var = next((v.get("name") for c in inner if c.get("kind") == "DeclStmt" for v in c.get("inner", []) if v.get("kind") == "VarDecl" and not str(v.get("name", "")).startswith("__")), "?")
+        return "foreach(%s,%s,%s)" % (var, rng, canon(inner[-1]) if inner else "")
     if k == "WhileStmt": return "while(" + ",".join(canon(c) for c in inner) + ")"
     if k == "CallExpr": return "fcall(" + ",".join(canon(c) for c in inner) + ")"
     return "?" + str(k)
